@@ -183,13 +183,33 @@ class Body:
     def mut_borrow_calls(self, local):
         """call terminators that receive a `&mut` borrow of `local` (the callee may write into it)"""
         if getattr(self, "_mbc", None) is None:
-            refs = {}   # temp local -> borrowed base local
-            for i in range(self.n):
-                if self.blocks[i].get("cu"):
-                    continue
-                for s in self.blocks[i]["s"]:
-                    if s["k"] == "=" and s["rv"]["k"] == "ref" and s["rv"]["m"] and len(s["p"]) == 1:
-                        refs.setdefault(s["p"][0], set()).add(s["rv"]["p"][0])
+            refs = {}   # temp local -> set of borrowed base locals (through re-borrows and deref_mut/as_mut calls)
+            changed = True
+            rounds = 0
+            while changed and rounds < 6:
+                changed = False
+                rounds += 1
+                for i in range(self.n):
+                    if self.blocks[i].get("cu"):
+                        continue
+                    for s in self.blocks[i]["s"]:
+                        if s["k"] == "=" and s["rv"]["k"] == "ref" and s["rv"]["m"] and len(s["p"]) == 1:
+                            base = s["rv"]["p"][0]
+                            new = set(refs.get(base, ())) if ("*" in s["rv"]["p"][1:] and base in refs) else {base}
+                            if "*" in s["rv"]["p"][1:] and base not in refs:
+                                new = {base}
+                            cur = refs.setdefault(s["p"][0], set())
+                            if not new <= cur:
+                                cur |= new
+                                changed = True
+                    t = self.blocks[i]["t"]
+                    if t["k"] == "call" and t["args"] and (PASS_THROUGH.match(t["f"]) or PASS_THROUGH.match(t["fd"])):
+                        a = t["args"][0]
+                        if a[0] in ("m", "c") and len(a[1]) == 1 and a[1][0] in refs and len(t["d"]) == 1:
+                            cur = refs.setdefault(t["d"][0], set())
+                            if not refs[a[1][0]] <= cur:
+                                cur |= refs[a[1][0]]
+                                changed = True
             m = {}
             for i in range(self.n):
                 t = self.blocks[i]["t"]
